@@ -427,7 +427,9 @@ Theorem fifo_refuted_for_impl :
     /\ po (acc evs) <> po (wire evs) ++ live s.
 Proof.
   exists witness_pss, witness_fs, witness_sched.
-  vm_compute. repeat split; try reflexivity; [now left | discriminate].
+  cbv zeta. repeat split; try (vm_compute; reflexivity).
+  - vm_compute. auto.
+  - vm_compute. discriminate.
 Qed.
 
 (* the second window: pointer read in PLAY, encode after CONFIG was entered: the encoder refuses the
@@ -449,10 +451,115 @@ Definition small_fs : list (list phase) := [[Config; Play]].
 
 Example small_spec_all_schedules :
   check_all_schedules (threads_of (program spec_write small_pss small_fs)) init trace_ok = true
-  /\ length (all_schedules (threads_of (program spec_write small_pss small_fs))) = 60.
+  /\ length (all_schedules (threads_of (program spec_write small_pss small_fs))) = 30.
 Proof. vm_compute. split; reflexivity. Qed.
 
 Example small_impl_some_schedule_fails :
   check_all_schedules (threads_of (program impl_write small_pss small_fs)) init trace_ok = false
-  /\ length (all_schedules (threads_of (program impl_write small_pss small_fs))) = 2520.
+  /\ length (all_schedules (threads_of (program impl_write small_pss small_fs))) = 420.
 Proof. vm_compute. split; reflexivity. Qed.
+
+(* 1024 play-only packets fit into the queue, the 1025th write closes the connection *)
+Definition burst (n : nat) : list op :=
+  OSet Config :: map (fun i => OWrite (mkPkt TTimes (N.of_nat i))) (seq 0 n).
+
+Example overflow_at_1025 :
+  let rs := seq_run spec_write (burst 1025) init in
+  forallb (fun x => negb (snd x)) (firstn 1025 rs) = true        (* CONFIG + 1024 writes: still open *)
+  /\ map (fun x => result_of (fst x)) (skipn 1024 rs) = [ROk; RErrQueueFull]
+  /\ map snd (skipn 1024 rs) = [false; true].
+Proof. vm_compute. repeat split; reflexivity. Qed.
+
+(* ---------- Part C: sequential histories ---------- *)
+
+(* the connection without the goroutine-local registers *)
+Definition obs_eq (a b : st) : Prop :=
+  s_phase a = s_phase b /\ s_cur a = s_cur b /\ s_heap a = s_heap b /\ s_closed a = s_closed b.
+
+Lemma obs_eq_refl a : obs_eq a a.
+Proof. unfold obs_eq. tauto. Qed.
+
+Lemma nth_upd_any {A} (d : A) i x l : nth i (upd d i x l) d = x.
+Proof.
+  revert l. induction i as [|i IH]; intros [|y l]; simpl; try reflexivity; apply IH.
+Qed.
+
+Lemma do_encode_obs t p a b :
+  obs_eq a b ->
+  snd (do_encode t p a) = snd (do_encode t p b) /\ obs_eq (fst (do_encode t p a)) (fst (do_encode t p b)).
+Proof.
+  intros (H1 & H2 & H3 & H4). unfold do_encode. rewrite H1, H4.
+  destruct (s_closed b) eqn:Hb; simpl; [split; [reflexivity|unfold obs_eq; repeat split; congruence]|].
+  destruct (encodable (s_phase b) p); simpl;
+    (split; [reflexivity|unfold obs_eq; simpl; repeat split; congruence]).
+Qed.
+
+Lemma dqe_obs t p q a b :
+  obs_eq a b ->
+  snd (do_queue_or_encode t p q a) = snd (do_queue_or_encode t p q b)
+  /\ obs_eq (fst (do_queue_or_encode t p q a)) (fst (do_queue_or_encode t p q b)).
+Proof.
+  intros H. pose proof H as (H1 & H2 & H3 & H4). unfold do_queue_or_encode.
+  destruct q as [i|]; [|now apply do_encode_obs].
+  destruct (is_cv p); [now apply do_encode_obs|].
+  rewrite H4. destruct (s_closed b) eqn:Hb; simpl; [split; [reflexivity|assumption]|].
+  unfold queue_at. rewrite H3.
+  destruct (Nat.leb cap (length (nth i (s_heap b) []))); simpl;
+    (split; [reflexivity|unfold obs_eq; simpl; repeat split; congruence]).
+Qed.
+
+Lemma set_reg_obs t r a : obs_eq (set_reg t r a) a.
+Proof. unfold obs_eq, set_reg. simpl. tauto. Qed.
+
+Lemma obs_eq_trans a b c : obs_eq a b -> obs_eq b c -> obs_eq a c.
+Proof. unfold obs_eq. intuition congruence. Qed.
+Lemma obs_eq_sym a b : obs_eq a b -> obs_eq b a.
+Proof. unfold obs_eq. intuition congruence. Qed.
+
+(* one call of today's write, run alone, is the property's write *)
+Lemma write_seq t p a b :
+  obs_eq a b ->
+  snd (exec (impl_write t p) a) = snd (exec (spec_write t p) b)
+  /\ obs_eq (fst (exec (impl_write t p) a)) (fst (exec (spec_write t p) b)).
+Proof.
+  intros H. pose proof H as (H1 & H2 & H3 & H4).
+  unfold impl_write, spec_write. cbn [exec sem].
+  unfold a_read_ptr, a_spec_write. rewrite <- H4.
+  unfold a_qoe, get_reg. cbn [s_regs set_reg]. rewrite nth_upd_any.
+  destruct (s_closed a) eqn:Hc.
+  - simpl. split; [reflexivity|].
+    eapply obs_eq_trans; [apply set_reg_obs|]. eapply obs_eq_trans; [apply set_reg_obs|]. assumption.
+  - rewrite <- H2.
+    assert (Hab : obs_eq (set_reg t RIdle (set_reg t (RPtr (s_cur a)) a)) b).
+    { eapply obs_eq_trans; [apply set_reg_obs|]. eapply obs_eq_trans; [apply set_reg_obs|]. assumption. }
+    destruct (dqe_obs t p (s_cur a) _ _ Hab) as [He Ho].
+    destruct (do_queue_or_encode t p (s_cur a) (set_reg t RIdle (set_reg t (RPtr (s_cur a)) a))) as [a' e1].
+    destruct (do_queue_or_encode t p (s_cur a) b) as [b' e2].
+    simpl in *. rewrite !app_nil_r. split; assumption.
+Qed.
+
+Lemma set_seq ph a b :
+  obs_eq a b -> snd (a_set ph a) = snd (a_set ph b) /\ obs_eq (fst (a_set ph a)) (fst (a_set ph b)).
+Proof.
+  intros (H1 & H2 & H3 & H4). unfold a_set, queue_at. rewrite H2, H3, H4.
+  destruct ph; destruct (s_cur b); try destruct (s_closed b) eqn:Hb; simpl;
+    (split; [reflexivity|unfold obs_eq; simpl; repeat split; congruence]).
+Qed.
+
+Theorem seq_impl_eq_spec ops : forall a b, obs_eq a b ->
+  seq_run impl_write ops a = seq_run spec_write ops b.
+Proof.
+  induction ops as [|o ops IH]; intros a b H; [reflexivity|].
+  cbn [seq_run].
+  assert (Hstep : snd (exec (op_labels impl_write o) a) = snd (exec (op_labels spec_write o) b)
+                  /\ obs_eq (fst (exec (op_labels impl_write o) a)) (fst (exec (op_labels spec_write o) b))).
+  { destruct o as [p|ph]; cbn [op_labels].
+    - now apply write_seq.
+    - cbn [exec]. destruct (set_seq ph a b H) as [He Ho].
+      destruct (sem (LSet ph) a) as [a' e1] eqn:Ea. destruct (sem (LSet ph) b) as [b' e2] eqn:Eb.
+      cbn [sem] in Ea, Eb. rewrite Ea, Eb in *. simpl in *. rewrite !app_nil_r. split; assumption. }
+  destruct (exec (op_labels impl_write o) a) as [a' e1].
+  destruct (exec (op_labels spec_write o) b) as [b' e2].
+  simpl in Hstep. destruct Hstep as [-> Ho].
+  rewrite (IH a' b' Ho). destruct Ho as (_ & _ & _ & ->). reflexivity.
+Qed.
